@@ -49,6 +49,7 @@ from intervaltree import IntervalTree
 import gtirb_rewriting._auxdata as _auxdata
 import gtirb_rewriting._auxdata_offsetmap as _auxdata_offsetmap
 
+from . import _verif
 from ._modify import (
     ModifyCache,
     SymbolDeletionOptions,
@@ -653,6 +654,15 @@ class RewritingContext:
 
             if isinstance(modification, _InsertionOrReplacement):
                 context = InsertionContext(self._module, func, block, offset)
+                if _verif.ENABLED:
+                    _verif.emit(
+                        "before_patch",
+                        cache=modify_cache,
+                        block=block,
+                        offset=offset,
+                        actual_block=actual_block,
+                        actual_offset=actual_offset,
+                    )
                 if isinstance(modification.patch, Patch):
                     assembler_result = self._invoke_patch(
                         modification.patch,
@@ -684,6 +694,14 @@ class RewritingContext:
                 total_insert_len += (
                     insert_len - modification.scope._replacement_length()
                 )
+                if _verif.ENABLED:
+                    _verif.emit(
+                        "after_insert",
+                        cache=modify_cache,
+                        block=block,
+                        offset=offset,
+                        actual_block=actual_block,
+                    )
             elif isinstance(modification, _Deletion):
                 actual_block = delete(
                     modify_cache,
@@ -693,6 +711,14 @@ class RewritingContext:
                     modification.retarget_to_proxy,
                 )
                 total_insert_len -= modification.scope._replacement_length()
+                if _verif.ENABLED:
+                    _verif.emit(
+                        "after_delete",
+                        cache=modify_cache,
+                        block=block,
+                        offset=offset,
+                        actual_block=actual_block,
+                    )
 
     def _insert_function_stub(
         self,
@@ -1103,6 +1129,8 @@ class RewritingContext:
                 )
 
             cfi_tracker = _CFIProcedureTracker(self._module, sorted_blocks)
+            if _verif.ENABLED:
+                _verif.emit("apply_begin", cache=modify_cache, context=self)
             for idx, block in enumerate(sorted_blocks):
                 func = None
                 if isinstance(block, gtirb.CodeBlock):
@@ -1125,6 +1153,9 @@ class RewritingContext:
                         idx, offset
                     ),
                 )
+
+            if _verif.ENABLED:
+                _verif.emit("apply_end", cache=modify_cache, context=self)
 
         if self._symbol_retargets:
             retarget_symbol_uses(
